@@ -932,6 +932,22 @@ def _run_object(ctx, specs, ct, base, idx, r, reqs, pending, stream):
         if pname == 'annread':
             _observe_lookup(ctx, specs, a2, pname, base, ctx.rng(stream + '-p', idx), reqs, pending)
             _instance_history(ctx, specs, annread(io.BytesIO(blob)), ct, base, ctx.rng(stream + '-ih', idx), reqs, pending)
+            if idx % 3 == 0:
+                # the parsed groups handed to a NEW instance of the same coordinate type: accepted, and they read back what was stored
+                again = annread(io.BytesIO(blob))
+                st9, re9 = _try(_build_sop, list(again.AnnotationGroupSequence), ct)
+                ctx.case(path='annread/reassembled', reassembled=(st9 if st9 == 'ok' else re9))
+                ok9 = st9 == 'ok'
+                if ok9:
+                    for s in specs:
+                        want, _ = _expected_arrays(s)
+                        stg, gd = _try(re9.get_annotation_group(number=s['number']).get_graphic_data, ct)
+                        ok9 &= stg == 'ok' and len(gd) == len(want) and all(_same(x, w) for x, w in zip(gd, want))
+                if not ok9:
+                    ctx.fail(dict(base, path='annread/reassembled'), f'parsed groups of a {ct} instance are not accepted by / not readable from a new '
+                                                                     f'{ct} instance ({re9 if st9 != "ok" else "data differ"})', site='reassembled')
+                reqs.append(('sopParsed', {'ct': ct, 'groups': [{'via': ct, 'commonZ': 'CommonZCoordinateValue' in g} for g in again.AnnotationGroupSequence]}))
+                pending.append((dict(base, what='sopParsed', path='annread/reassembled'), ('ok', st9 == 'ok')))
     # group-level parse without the file
     for s, g in zip(specs, groups):
         if (idx + s['number']) % 2 == 0:
@@ -970,7 +986,7 @@ def _malformed_cases(ctx, idx):
     kind = ['closed-polygon', 'point-count', 'non-finite', 'meas-more', 'meas-fewer', 'meas-single', 'meas-nan-padded',
             'meas-nan-short', 'mixed-dims', 'wrong-columns', 'one-dimensional', 'number', 'empty', 'unknown-type',
             'sop-numbering', 'meas-wrong-type', 'meas-parsed-single', 'meas-parsed-count', 'non-finite-shared-z',
-            'bad-dtype', 'compensating-counts', 'sop-type-mismatch'][idx % 22]
+            'bad-dtype', 'compensating-counts', 'sop-type-mismatch', 'sop-parsed-type-mismatch'][idx % 23]
     from highdicom.ann import Measurements
     n = len(s['counts'])
 
@@ -1150,6 +1166,34 @@ def _malformed_cases(ctx, idx):
         built = {'first': [other_dim, dim], 'second': [dim, other_dim], 'both': [other_dim, other_dim], 'only': [other_dim],
                  'parsed-then-built': [None, other_dim]}[variant]
         return dict(d, variant=variant), build, ('sopTypes', {'ct': ct, 'built': built})
+    if kind == 'sop-parsed-type-mismatch':
+        # PARSED groups (no cached input) handed to the constructor of an instance of the other coordinate type: a group read
+        # through its instance knows that instance's type; a group parsed on its own with a common z can only be 3-D
+        from highdicom.ann import AnnotationGroup, annread
+        ct = '2D' if dim == 2 else '3D'
+        other = '3D' if dim == 2 else '2D'
+        variant = r.choice(['via-instance', 'via-instance-second', 'own-common-z'] if dim == 3 else ['via-instance', 'via-instance-second'])
+        s2 = _gen_group(ctx, 'bad2', idx, 2, dim)
+
+        def build():
+            if variant == 'own-common-z':
+                pts = [np.array([[1.0 + k, 2.0, 7.5]] * MIN_PTS[s['gtype']], np.float32) + np.array([[0, q, 0] for q in range(MIN_PTS[s['gtype']])], np.float32)
+                       for k in range(2)]
+                g0 = AnnotationGroup.from_dataset(_build_group(s, graphic_data=pts, measurements=None), copy=True)
+                assert 'CommonZCoordinateValue' in g0
+                return _build_sop([g0], '2D')
+            buf = io.BytesIO()
+            _build_sop([_build_group(s), _build_group(s2)], ct).save_as(buf)
+            parsed = annread(io.BytesIO(buf.getvalue()))
+            gs = list(parsed.AnnotationGroupSequence)
+            if variant == 'via-instance-second':
+                so = _gen_group(ctx, 'bad3', idx, 1, 5 - dim)
+                return _build_sop([_build_group(so), gs[1]], other)
+            return _build_sop(gs, other)
+        groups = {'via-instance': [{'via': ct, 'commonZ': False}, {'via': ct, 'commonZ': False}],
+                  'via-instance-second': [{'via': ct, 'commonZ': False}],
+                  'own-common-z': [{'via': None, 'commonZ': True}]}[variant]
+        return dict(d, variant=variant), build, ('sopParsed', {'ct': '2D' if variant == 'own-common-z' else other, 'groups': groups})
     if kind in ('meas-parsed-single', 'meas-parsed-count'):
         # a Measurements item that was parsed from a dataset (it no longer knows how many values it was built from),
         # dense (no NaN), reused for a group with another number of annotations
@@ -1179,7 +1223,7 @@ def _malformed(ctx, idx, reqs, pending):
     d, build, margs = _malformed_cases(ctx, idx)
     case = {'what': 'malformed', 'idx': idx, 'descr': d}
     st, res = _try(build)
-    if isinstance(margs, tuple) and margs[0] in ('sopNumbers', 'sopTypes'):
+    if isinstance(margs, tuple) and margs[0] in ('sopNumbers', 'sopTypes', 'sopParsed'):
         reqs.append(margs)
         pending.append((dict(case, what=margs[0]), ('ok', st == 'ok')))
     elif isinstance(margs, tuple):
